@@ -1,5 +1,6 @@
 import OmplModel.Proofs.GridComponents
 import OmplModel.Proofs.GridRun
+import OmplModel.Proofs.GridCoords
 /-!
 # C13 — grid discretizations track cells, neighbours, borders and components exactly
 
@@ -122,42 +123,7 @@ theorem tops_best (cfg : Cfg) (ok : CmpOK cfg) (ops : List Op) (hv : ∀ op ∈ 
            ((∀ c' ∈ g.cells, c'.border = false) ∧ c.border = false ∧
               ∀ c' ∈ g.cells, c'.border = false → cfg.ltI c'.data c.data = false))) := by
   intro g
-  have hi : Inv cfg g := run_inv ops hv
-  have ho : Ordered cfg g := run_ordered ok ops
-  obtain ⟨hEn, hEs⟩ := top_best_side (lt := cfg.ltE) hi.ext ok.kE ho.1
-  obtain ⟨hIn, hIs⟩ := top_best_side (lt := cfg.ltI) hi.int ok.kI ho.2
-  have hnil : (∀ c ∈ g.cells, c.border = false) → (∀ c ∈ g.cells, (!c.border) = false) → g.cells = [] := by
-    intro h1 h2
-    cases hcs : g.cells with
-    | nil => rfl
-    | cons c cs =>
-      have hc : c ∈ g.cells := by rw [hcs]; simp
-      have := h1 c hc; have := h2 c hc; simp_all
-  constructor
-  · unfold topInternal
-    cases hI : g.internal.top with
-    | some e =>
-      obtain ⟨c, hc, hp, hid, hbest⟩ := hIs e hI
-      exact ⟨c, hc, hid, Or.inl ⟨by simpa using hp, fun c' hc' hb' => hbest c' hc' (by simp [hb'])⟩⟩
-    | none =>
-      have hall := hIn hI
-      cases hE : g.external.top with
-      | some e =>
-        obtain ⟨c, hc, hp, hid, hbest⟩ := hEs e hE
-        exact ⟨c, hc, hid, Or.inr ⟨fun c' hc' => by simpa using hall c' hc', hp, hbest⟩⟩
-      | none => exact hnil (hEn hE) hall
-  · unfold topExternal
-    cases hE : g.external.top with
-    | some e =>
-      obtain ⟨c, hc, hp, hid, hbest⟩ := hEs e hE
-      exact ⟨c, hc, hid, Or.inl ⟨hp, hbest⟩⟩
-    | none =>
-      have hall := hEn hE
-      cases hI : g.internal.top with
-      | some e =>
-        obtain ⟨c, hc, hp, hid, hbest⟩ := hIs e hI
-        exact ⟨c, hc, hid, Or.inr ⟨hall, by simpa using hp, fun c' hc' hb' => hbest c' hc' (by simp [hb'])⟩⟩
-      | none => exact hnil hall (hIn hI)
+  exact tops_best_of_inv ok (run_inv ops hv) (run_ordered ok ops)
 
 /-! non-vacuity: a concrete configuration (2-D, bounds [0,1]², limit 3, `<` on the data, event adds nothing)
 whose functors are strict weak orders, and a history that creates three cells and removes one. -/
